@@ -509,7 +509,7 @@ func generatedInput(c *Ctx, l *core.Lane) (data []byte, name string, fmap []gen.
 			}
 			return h.Bytes, "gen:HEIF", fmap
 		}
-		em := gen.EmbedX(l, c.L("emb:x"), kind, parts, l.Bool())
+		em := gen.EmbedX(l, c.L("emb:x"), kind, parts, l.Bool(), c.L("emb:y"))
 		fmap = append(fmap, em.Map...)
 		if len(em.Parts) == 1 && em.Parts[0].Start >= 0 {
 			for _, m := range emap {
